@@ -6,6 +6,7 @@ Only property statements and their non-vacuity examples live here.
 import NipyVerif.Lemmas.C08
 
 namespace NipyVerif.C08
+set_option linter.unusedSimpArgs false
 
 /-! ## Composition and inversion of affine maps -/
 
@@ -356,14 +357,14 @@ theorem get_set_param (c : Cls) (v pc : Vec12) (p : List Rat)
   obtain ⟨h0, h1, h2, h3, h4, h5, h6, h7, h8, h9, h10, h11⟩ := hpc
   have hl := list_eq_map_getD p
   refine ⟨assign v pc p (setPairs c), ?_, ?_⟩
-  · cases c <;> simp [paramInds] at hp <;> simp [setParam, fancySet, paramInds, setPairs, hp]
+  · cases c <;> simp [paramInds, Gen.C08.indsAffine, Gen.C08.indsAffine2D, Gen.C08.indsRigid, Gen.C08.indsRigid2D, Gen.C08.indsSimilarity, Gen.C08.indsSimilarity2D, Gen.C08.simTargets, Gen.C08.simSources, Gen.C08.sim2dTargets, Gen.C08.sim2dSources] at hp <;> simp [setParam, fancySet, paramInds, setPairs, hp, Gen.C08.indsAffine, Gen.C08.indsAffine2D, Gen.C08.indsRigid, Gen.C08.indsRigid2D, Gen.C08.indsSimilarity, Gen.C08.indsSimilarity2D, Gen.C08.simTargets, Gen.C08.simSources, Gen.C08.sim2dTargets, Gen.C08.sim2dSources]
   · cases c <;>
-      (simp only [paramInds, List.length_cons, List.length_nil] at hp
+      (simp only [paramInds, Gen.C08.indsAffine, Gen.C08.indsAffine2D, Gen.C08.indsRigid, Gen.C08.indsRigid2D, Gen.C08.indsSimilarity, Gen.C08.indsSimilarity2D, Gen.C08.simTargets, Gen.C08.simSources, Gen.C08.sim2dTargets, Gen.C08.sim2dSources, List.length_cons, List.length_nil] at hp
        rw [hp] at hl
        simp only [List.range, List.range.loop, List.map_cons, List.map_nil] at hl
        conv_rhs => rw [hl]
        clear hl
-       simp [getParam, paramInds, assign, setPairs, List.zip, List.range, List.range.loop, Vec12.set,
+       simp [getParam, paramInds, Gen.C08.indsAffine, Gen.C08.indsAffine2D, Gen.C08.indsRigid, Gen.C08.indsRigid2D, Gen.C08.indsSimilarity, Gen.C08.indsSimilarity2D, Gen.C08.simTargets, Gen.C08.simSources, Gen.C08.sim2dTargets, Gen.C08.sim2dSources, assign, setPairs, List.zip, List.range, List.range.loop, Vec12.set,
          Vec12.get, h0, h1, h2, h3, h4, h5, h6, h7, h8, h9, h10, h11])
 
 /-- *Reading and re-assigning the parameter vector reproduces the same transform*: the
@@ -378,7 +379,7 @@ theorem set_get_param (c : Cls) (v pc : Vec12) (hpc : pc.AllNonzero)
   cases c
   case similarity =>
     obtain ⟨e1, e2, e3, e4⟩ := hsim (Or.inl rfl)
-    simp only [setParam, fancySet, getParam, paramInds, setPairs, assign, List.map_cons, List.map_nil,
+    simp only [setParam, fancySet, getParam, paramInds, Gen.C08.indsAffine, Gen.C08.indsAffine2D, Gen.C08.indsRigid, Gen.C08.indsRigid2D, Gen.C08.indsSimilarity, Gen.C08.indsSimilarity2D, Gen.C08.simTargets, Gen.C08.simSources, Gen.C08.sim2dTargets, Gen.C08.sim2dSources, setPairs, assign, List.zip_cons_cons, List.zip_nil_right, List.zip_nil_left, List.map_cons, List.map_nil,
       List.all_cons, List.all_nil, List.length_cons, List.length_nil, List.foldl_cons, List.foldl_nil,
       Vec12.set, Vec12.get, List.getD_cons_zero, List.getD_cons_succ]
     simp only [if_true, Bool.and_true, decide_true, Nat.reduceAdd, Nat.reduceLT, Except.ok.injEq]
@@ -386,14 +387,14 @@ theorem set_get_param (c : Cls) (v pc : Vec12) (hpc : pc.AllNonzero)
     all_goals first | (rw [← e3, ← e1]; field_simp) | (rw [← e4, ← e3, ← e2, ← e1]; field_simp)
   case similarity2d =>
     obtain ⟨e1, e2, e3, e4⟩ := hsim (Or.inr rfl)
-    simp only [setParam, fancySet, getParam, paramInds, setPairs, assign, List.map_cons, List.map_nil,
+    simp only [setParam, fancySet, getParam, paramInds, Gen.C08.indsAffine, Gen.C08.indsAffine2D, Gen.C08.indsRigid, Gen.C08.indsRigid2D, Gen.C08.indsSimilarity, Gen.C08.indsSimilarity2D, Gen.C08.simTargets, Gen.C08.simSources, Gen.C08.sim2dTargets, Gen.C08.sim2dSources, setPairs, assign, List.zip_cons_cons, List.zip_nil_right, List.zip_nil_left, List.map_cons, List.map_nil,
       List.all_cons, List.all_nil, List.length_cons, List.length_nil, List.foldl_cons, List.foldl_nil,
       Vec12.set, Vec12.get, List.getD_cons_zero, List.getD_cons_succ]
     simp only [if_true, Bool.and_true, decide_true, Nat.reduceAdd, Nat.reduceLT, Except.ok.injEq]
     apply Vec12.ext <;> simp only [] <;> first | rfl | (field_simp)
     all_goals first | (rw [← e3, ← e1]; field_simp) | (rw [← e4, ← e3, ← e2, ← e1]; field_simp)
   all_goals
-    (simp only [setParam, fancySet, getParam, paramInds, setPairs, assign, List.map_cons, List.map_nil,
+    (simp only [setParam, fancySet, getParam, paramInds, Gen.C08.indsAffine, Gen.C08.indsAffine2D, Gen.C08.indsRigid, Gen.C08.indsRigid2D, Gen.C08.indsSimilarity, Gen.C08.indsSimilarity2D, Gen.C08.simTargets, Gen.C08.simSources, Gen.C08.sim2dTargets, Gen.C08.sim2dSources, setPairs, assign, List.map_cons, List.map_nil,
       List.length_cons, List.length_nil, List.zip, List.zipWith, List.range, List.range.loop,
       List.foldl_cons, List.foldl_nil, Vec12.set, Vec12.get, List.getD_cons_zero, List.getD_cons_succ]
      simp only [Bool.false_eq_true, if_false, if_true, Nat.reduceAdd, Except.ok.injEq]
